@@ -56,7 +56,11 @@ class C12(CheckBase):
         cmdk = rng.weighted([(8, 'extract-files'), (3, 'extract-unused'), (4, 'read')])
         dest = rng.choice(['out', 'out/', './out', 'out/.', 'ABS/out', 'out//', 'sub/../out', 'ABS/out/',
                            'lnk/../out2', 'lnk/../out2/', 'ABS/lnk/../out2', 'lnkout', 'lnkout/', 'sub/deep/../../out'])
-        if cmdk == 'extract-unused' and rng.chance(0.15):
+        if rng.chance(0.08):
+            # legal directory names that look like something else: ending in a backslash, a space, a dot; starting with
+            # a dash; containing a newline
+            dest = rng.choice(['bs\\', 'bs\\/', 'sp ', ' lead', 'dot.', '-dash', 'a\nb', 'q"q', "o'o"])
+        elif cmdk == 'extract-unused' and rng.chance(0.15):
             # a destination whose name contains a printf conversion: it is a directory name, not a format
             dest = rng.choice(['fm%dt', 'fm%3dt', 'f%xm', 'fm%dt/', '%d'])
         elif rng.chance(0.06):
@@ -95,6 +99,8 @@ class C12(CheckBase):
             del files['ESC']
         sb.populate(files)
         dest = case['cmd'][-1] if case['cmd'][0] in ('extract-files', 'extract-unused') else ''
+        if dest and not dest.startswith(('/', 'ABS')) and dest.rstrip('/') not in files and '/' not in dest.rstrip('/') and '%' not in dest:
+            sb.populate({dest.rstrip('/'): None})
         if '%' in dest:
             # the named directory itself, and every directory its name would turn into if it were used as a format
             # with a sector number as argument (decoys: a mistake must find somewhere to land)
